@@ -24,7 +24,8 @@ type vgTemplate struct {
 	ins   [][2]any // {producer name, 1-based output index}
 	outs  []uint64
 	ref   string
-	alt   bool // deposit whose asset record differs from the standard one in letter case only
+	alt   bool  // deposit whose asset record differs from the standard one in letter case only
+	xtype uint8 // submit only: type of the LAST output when not a plain script output (malformed on purpose)
 }
 
 var vgTemplates = []vgTemplate{
@@ -41,6 +42,9 @@ var vgTemplates = []vgTemplate{
 	{name: "TI", kind: "transfer", asset: "BTC", ins: [][2]any{{"D3", 1}}, outs: []uint64{500}},
 	{name: "TD", kind: "transfer", asset: "BTC", ins: [][2]any{{"D3", 1}}, outs: []uint64{300}},
 	{name: "W1", kind: "submit", asset: "BTC", ins: [][2]any{{"T1", 2}}, outs: []uint64{300, 200}},
+	// malformed submissions (never valid): a third output that is not a plain change output
+	{name: "WX", kind: "submit", asset: "BTC", ins: [][2]any{{"T1", 2}}, outs: []uint64{300, 100, 100}, xtype: common.OutputTypeWithdrawalClaim},
+	{name: "WY", kind: "submit", asset: "BTC", ins: [][2]any{{"T1", 2}}, outs: []uint64{300, 100, 100}, xtype: common.OutputTypeCustodianSlashNodes},
 	{name: "X1", kind: "deposit", asset: "XIN", amt: 10, outs: []uint64{10}},
 	{name: "K1", kind: "claim", asset: "XIN", ins: [][2]any{{"X1", 1}}, outs: []uint64{1, 9}, ref: "W1"},
 	{name: "K2", kind: "claim", asset: "XIN", ins: [][2]any{{"K1", 2}}, outs: []uint64{1, 8}, ref: "W1"},
@@ -101,6 +105,9 @@ func vgBuild(w *vnWorld, tag string) *vgLedger {
 				if tp.kind == "submit" && i == 0 {
 					tx.Outputs = append(tx.Outputs, &common.Output{Type: common.OutputTypeWithdrawalSubmit, Amount: common.NewInteger(a),
 						Withdrawal: &common.WithdrawalData{Address: "ext-address-" + tag, Tag: ""}})
+				} else if tp.xtype != 0 && i == len(tp.outs)-1 {
+					tx.AddScriptOutput([]*common.Address{&w.user}, common.NewThresholdScript(1), common.NewInteger(a), seed)
+					tx.Outputs[len(tx.Outputs)-1].Type = tp.xtype
 				} else if tp.kind == "claim" && i == 0 {
 					tx.Outputs = append(tx.Outputs, &common.Output{Type: common.OutputTypeWithdrawalClaim, Amount: common.NewInteger(a)})
 				} else {
@@ -116,8 +123,8 @@ func vgBuild(w *vnWorld, tag string) *vgLedger {
 				tx.Extra = []byte(fmt.Sprintf("%s-%d", tp.name, nonce))
 			}
 			h := tx.AsVersioned().PayloadHash()
-			if int(h[0])/16 != k {
-				// 15 templates: bands of 16 of the first hash byte
+			if int(h[0])/12 != k {
+				// up to 21 templates: bands of 12 of the first hash byte
 				continue
 			}
 			ver := tx.AsVersioned()
@@ -438,8 +445,9 @@ func TestVerifLedgerReplay(t *testing.T) {
 				break
 			}
 		}
+		// newest first: a batch validated later must not depend on an earlier one being applied before it
 		for k := 0; !stopped && len(pending) > 0 && k < 8; k++ {
-			doStep(len(wk.Steps)+k, "Apply", pending[0])
+			doStep(len(wk.Steps)+k, "Apply", pending[len(pending)-1])
 		}
 		// C35: a different snapshot written at an already occupied topology position must be refused
 		// and must leave the stored order untouched (storage-level probe on a fabricated chain)
